@@ -656,6 +656,24 @@ pub fn detached<A: Actor>(name: Option<String>) -> Result<Detached, SpawnErr> {
     })
 }
 
+/// Like `detached`, for a cell carrying a remote-looking id (no pid-registry entry)
+#[cfg(feature = "cluster")]
+pub fn detached_remote<A: Actor>(node_id: u64, pid: u64) -> Result<Detached, SpawnErr> {
+    let id = crate::ActorId::Remote { node_id, pid };
+    let (cell, ports) = ActorCell::new_remote::<A>(None, id)?;
+    let guard = ActorLifecycleGuard::new(cell.clone());
+    Ok(Detached {
+        cell,
+        ports: Some(ports),
+        guard: Some(guard),
+    })
+}
+
+/// publish a status on a cell the way its actor task would (no `Detached` borrow needed)
+pub fn set_status(cell: &ActorCell, st: ActorStatus) -> ActorStatus {
+    cell.set_status(st)
+}
+
 impl Detached {
     /// publish a status the way the actor task would
     pub fn set_status(&self, st: ActorStatus) -> ActorStatus {
